@@ -131,6 +131,8 @@ def field_table(chk, pid, I, C, cfg, struct, p, kind, offw, term, o, cache):
     for e in extras:
         if e == ("bits", 0, 6):
             others.append(o.tset())
+        elif isinstance(e, tuple) and len(e) == 2 and e[0] == "const" and isinstance(e[1], int):
+            others.append(IntSet.of(e[1]))      # a captured constant (the sentinel passed to a shared helper)
         else:
             chk.ob(False, "%s/extra-arg/%s/%s/%s" % (pid, struct, p, e), "%s.%s [%s]: decoder also depends on %r" % (struct, p, cfg, e))
             return None
